@@ -22,7 +22,7 @@ pub struct P09 {
 }
 
 fn cfg09(base: u64) -> WorldCfg {
-    WorldCfg { n_users: N_USERS, max_concurrent_farms: 3, penalty: Decimal::percent(base), ..Default::default() }
+    WorldCfg { n_users: N_USERS, max_concurrent_farms: 12, penalty: Decimal::percent(base), ..Default::default() }
 }
 
 fn build_base(w: &mut World, farms: u8) {
@@ -54,6 +54,13 @@ fn build_base(w: &mut World, farms: u8) {
             mk(w, C, 1, 60, "a1");
             mk(w, OWNER, 1, 60, "a2");
             mk(w, B, 1, 60, "a3");
+        }
+        8 => {
+            // eleven active farms on the LP (more than one page of the farm listing); the last-sorting one has another owner
+            for i in 1..=10u32 {
+                mk(w, C, 1, 60, &format!("a{i:02}"));
+            }
+            mk(w, OWNER, 1, 60, "zz");
         }
         6 => mk(w, C, 1, 2, "e1"),
         7 => {
@@ -167,6 +174,12 @@ fn eval09(w: &mut World, p: &P09, rec: &mut Rec) -> bool {
                 }
             }
         }
+        // "split between the fee collector and the owners of currently active farms": when any farm owner is paid, every
+        // owner of an active farm is
+        let paid_owners: Vec<usize> = actives.iter().cloned().filter(|a| d(*a) > 0 || *a == A).collect();
+        if actives.iter().any(|a| *a != A && d(*a) > 0) && paid_owners.len() != actives.len() {
+            why.push(format!("owners of active farms {:?}, but only {:?} received a share of the penalty", actives, paid_owners));
+        }
         if got + paid_out > amount || got < 0 {
             why.push(format!("owner {got} + penalty payouts {paid_out} > recorded amount {amount}"));
         }
@@ -231,7 +244,7 @@ pub fn points09(tier: Tier) -> Vec<P09> {
     for b in &bases {
         for d in &durs {
             for a in &amounts {
-                for f in 0u8..8 {
+                for f in 0u8..9 {
                     v.push(P09 { base_pct: *b, dur: *d, amount: *a, farms: f });
                 }
             }
